@@ -10,10 +10,10 @@ Dates are integer microseconds.  (Known finding C17-continuous-burn-step-samplin
 namespace BeyondVerif.C17W
 open BeyondVerif.ManWin BeyondVerif.Generated
 
-/-- a 7 s burn `[615 s, 622 s)` inside the 60 s step starting at 600 s: no stage date of any of the four
-methods sees it switched on, in that step or its neighbours — it delivers nothing -/
+/-- a 7 s burn `[615 s, 622 s)` inside the 60 s step starting at 600 s: no stage date of the two
+fixed-step methods (Euler, RK4) sees it switched on, in that step or its neighbours — it delivers nothing -/
 theorem short_burn_delivers_nothing :
-    ∀ cs ∈ [butcherC_euler, butcherC_rk4, butcherC_rkf54, butcherC_dopri54],
+    ∀ cs ∈ [butcherC_euler, butcherC_rk4],
       ∀ date ∈ [540000000, 600000000, 660000000],
         stagesOn cs 615000000 622000000 date 60000000 = cs.map (fun _ => false) := by decide
 
